@@ -17,7 +17,7 @@ LIVE = ("def live(a):\n"
 
 def gen(rng):
     s = rng.choice([0, 1, 127, 254, 255, rng.randrange(256)])
-    return {"seq": s, "wc": rng.choice([1, 2, 3, 4, 5, 5, 6]), "no_ack": rng.random() < 0.3,
+    return {"seq": s, "wc": rng.choice([0, 1, 2, 3, 4, 5, 5, 6]), "no_ack": rng.random() < 0.3,
             "ack_seq": rng.choice([s, s, (s + 1) % 256, (s + 255) % 256, rng.randrange(256)])}
 
 
